@@ -3,6 +3,7 @@ import XV.Lemmas.UndoKeys
 import XV.Lemmas.UndoObs
 import XV.Lemmas.UndoFee
 import XV.Lemmas.UndoBlock
+import XV.Lemmas.UndoWalk
 /-!
 C01 — the state at a block is a pure function of its chain: undoing exactly cancels playing.
 Transaction level: `undoTx (applyTx s t) t` restores every row of the UTXO table and the total
@@ -637,5 +638,103 @@ example :
       (undoBlock blkEnv s' blkB false).pointer = 4 ∧ (undoBlock blkEnv s' blkB false).irrev = 1 ∧
       curVer (undoBlock blkEnv s' blkB false) "a" = some (1, 0) ∧
       curVer (undoBlock blkEnv s' blkB false) "c" = none := by decide
+
+-- ================================================================== the block tree and walks
+
+/-- **`ancestors` is a chain of parent links**: consecutive elements `x, y` satisfy `(e.block x).pre = some y`
+(`Linked`, Lemmas/UndoWalk.lean), and the chain starts at the block itself -/
+theorem ancestors_chain (e : Env) (fuel b : Nat) :
+    Linked e (ancestors e fuel b) ∧ (0 < fuel → (ancestors e fuel b).head? = some b) := by
+  refine ⟨ancestors_linked e fuel b, fun h => ?_⟩
+  obtain ⟨n, rfl⟩ : ∃ n, fuel = n + 1 := ⟨fuel - 1, by omega⟩
+  rw [ancestors_succ]; rfl
+
+/-- **what `undoTodo` (`FindUndoAndTodoBlocks`) returns**, in a block tree whose parent links go strictly down in
+height (`ParentLower`): with `ca` / `da` the ancestor chains of the tip and of the destination,
+no block to undo is an ancestor of the destination, no block to apply is an ancestor of the tip, and either the
+chains are disjoint (everything is undone / applied) or both split at one block `lca`, the lowest common ancestor
+(every common ancestor is at most as high): `ca = undo ++ lca :: _` — `undo` is the part of the tip's chain strictly
+above `lca`, newest first — and `da = todo.reverse ++ lca :: _` — `todo` is the part of the destination's chain
+strictly above `lca`, oldest first. Both chains are parent-linked (`ancestors_chain`). -/
+theorem undoTodo_spec (e : Env) (cur dest : Nat) (hpl : ParentLower e) :
+    (∀ x ∈ (undoTodo e cur dest).1, x ∉ ancestors e (e.blocks.length + 1) dest) ∧
+    (∀ x ∈ (undoTodo e cur dest).2, x ∉ ancestors e (e.blocks.length + 1) cur) ∧
+    ((ancestors e (e.blocks.length + 1) cur = (undoTodo e cur dest).1 ∧
+      ancestors e (e.blocks.length + 1) dest = (undoTodo e cur dest).2.reverse ∧
+      ∀ x ∈ ancestors e (e.blocks.length + 1) cur, x ∉ ancestors e (e.blocks.length + 1) dest) ∨
+     ∃ lca r1 r2,
+      ancestors e (e.blocks.length + 1) cur = (undoTodo e cur dest).1 ++ lca :: r1 ∧
+      ancestors e (e.blocks.length + 1) dest = (undoTodo e cur dest).2.reverse ++ lca :: r2 ∧
+      ∀ x, x ∈ ancestors e (e.blocks.length + 1) cur → x ∈ ancestors e (e.blocks.length + 1) dest →
+        (e.block x).height ≤ (e.block lca).height) :=
+  undoTodo_split e cur dest hpl
+
+/-- **a walk that reports success ends at its destination**: in a block tree whose parent links go strictly down in
+height, for a destination the environment knows under its own id, the pointer after a successful non-pruning
+`walk` is `dest` — whether the walk only undid, only applied, did both, or had nothing to do -/
+theorem walk_reaches (e : Env) (s : St) (lh : Int) (dest : Nat) (hpl : ParentLower e)
+    (hid : (e.block dest).id = dest) (hok : (walk e s lh dest false).2 = true) :
+    (walk e s lh dest false).1.pointer = dest := by
+  have htgt := undoTodo_target e s.pointer dest hpl
+  unfold walk at hok ⊢
+  simp only at hok ⊢
+  have h0 : ({ (s.pool.reverse.foldl (fun st i => undoTx e st (e.tx i)) s) with pool := [] } : St).pointer = s.pointer :=
+    foldl_undoTx_pointer e s.pool.reverse s
+  generalize hs0 : ({ (s.pool.reverse.foldl (fun st i => undoTx e st (e.tx i)) s) with pool := [] } : St) = s0
+    at h0 hok ⊢
+  have hu := undoAll_pointer e (undoTodo e s.pointer dest).1 s0
+  generalize hua : walk.undoAll e false (undoTodo e s.pointer dest).1 s0 = ua at hu hok ⊢
+  obtain ⟨s1, ok1⟩ := ua
+  simp only at hu
+  by_cases hok1 : ok1 = true
+  · simp only [hok1, Bool.not_true, Bool.false_eq_true, ↓reduceIte] at hok ⊢
+    have ht := todoAll_pointer e lh (undoTodo e s.pointer dest).2 s1
+    generalize hta : walk.todoAll e lh (undoTodo e s.pointer dest).2 s1 = ta at ht hok ⊢
+    obtain ⟨s2, ok2⟩ := ta
+    simp only at ht
+    by_cases hok2 : ok2 = true
+    · simp only [hok2, Bool.not_true, Bool.false_eq_true, ↓reduceIte] at hok ⊢
+      rw [foldl_doTx_pointer, ht hok2]
+      cases hl : (undoTodo e s.pointer dest).2.getLast? with
+      | some bi =>
+        simp only [hl] at htgt ⊢
+        rw [htgt, hid]
+      | none =>
+        simp only [hl] at htgt ⊢
+        rw [hu hok1]
+        cases hg : (undoTodo e s.pointer dest).1.getLast? with
+        | some u => simp only [hg] at htgt ⊢; rw [htgt]; rfl
+        | none => simp only [hg] at htgt ⊢; rw [h0, htgt]
+    · simp [hok2] at hok
+  · simp [hok1] at hok
+
+-- non-vacuity: a tree 1 ← 2 ← 3 and 2 ← 4 ← 5 (heights 1 2 3 / 3 4), empty blocks; the tip is 3
+private def treeEnv : Env := { blocks := [
+  (1, ⟨1, none, 1, [], "m"⟩), (2, ⟨2, some 1, 2, [], "m"⟩), (3, ⟨3, some 2, 3, [], "m"⟩),
+  (4, ⟨4, some 2, 3, [], "m"⟩), (5, ⟨5, some 4, 4, [], "m"⟩)] }
+
+example : ancestors treeEnv 6 5 = [5, 4, 2, 1] ∧ undoTodo treeEnv 3 5 = ([3], [4, 5]) := by decide
+
+private theorem treeEnv_lower : ParentLower treeEnv := by
+  intro b p h
+  by_cases hb : b = 1 ∨ b = 2 ∨ b = 3 ∨ b = 4 ∨ b = 5
+  · rcases hb with rfl | rfl | rfl | rfl | rfl <;> revert h <;> simp [treeEnv, Env.block, lookup] <;>
+      (intro h; subst h; decide)
+  · have : lookup treeEnv.blocks b = none := by
+      simp only [not_or] at hb
+      obtain ⟨h1, h2, h3, h4, h5⟩ := hb
+      have e1 : ¬ 1 = b := fun x => h1 x.symm
+      have e2 : ¬ 2 = b := fun x => h2 x.symm
+      have e3 : ¬ 3 = b := fun x => h3 x.symm
+      have e4 : ¬ 4 = b := fun x => h4 x.symm
+      have e5 : ¬ 5 = b := fun x => h5 x.symm
+      simp [treeEnv, lookup, e1, e2, e3, e4, e5]
+    simp [Env.block, this] at h
+    cases h
+
+example : ParentLower treeEnv ∧ (treeEnv.block 5).id = 5 ∧
+    (walk treeEnv { pointer := 3 } 0 5 false).2 = true ∧ (walk treeEnv { pointer := 3 } 0 5 false).1.pointer = 5 ∧
+    (walk treeEnv { pointer := 5 } 0 2 false).2 = true ∧ (walk treeEnv { pointer := 5 } 0 2 false).1.pointer = 2 :=
+  ⟨treeEnv_lower, by decide, by decide, by decide, by decide, by decide⟩
 
 end XV.C01
